@@ -70,7 +70,7 @@ func (in *inliner) findClosures(pkgs []*packages.Package, excluded func(string) 
 					}
 					id, ok := as.Lhs[0].(*ast.Ident)
 					lit, isLit := as.Rhs[0].(*ast.FuncLit)
-					if !ok || !isLit || id.Name == "_" || InBaseline(ClosureKey(pk.PkgPath, id.Name)) {
+					if !ok || !isLit || id.Name == "_" || InBaseline(ClosureKey(pk.PkgPath, id.Name)) || in.synthDefs[as] {
 						return true
 					}
 					v, _ := pk.TypesInfo.Defs[id].(*types.Var)
